@@ -4,6 +4,7 @@ package rigs
 
 import (
 	"bytes"
+	"context"
 	"errors"
 	"fmt"
 	"io"
@@ -35,6 +36,8 @@ type attemptRec struct {
 	body    []byte
 	outcome string
 	in, out time.Duration
+	cl      int64 // the length the attempt announced (-1: none, chunked)
+	partial bool  // the backend failed before it had read the whole body: what it read says nothing
 }
 
 type preq struct {
@@ -352,6 +355,18 @@ func (b *endBody) Close() error { b.end(); return nil }
 
 var errBackend = errors.New("sim: backend failure")
 
+// dialTimeout is what package net returns when a backend does not answer its SYNs: a timeout
+// that, like net's own, declares itself to be context.DeadlineExceeded although the request's
+// context is alive and well.
+type dialTimeout struct{}
+
+func (dialTimeout) Error() string   { return "i/o timeout" }
+func (dialTimeout) Timeout() bool   { return true }
+func (dialTimeout) Temporary() bool { return true }
+func (dialTimeout) Is(err error) bool {
+	return err == context.DeadlineExceeded
+}
+
 func (t *simRT) RoundTrip(req *http.Request) (resp *http.Response, err error) {
 	r := t.rig
 	c := r.c
@@ -390,7 +405,19 @@ func (t *simRT) RoundTrip(req *http.Request) (resp *http.Response, err error) {
 		scripted = rq.outcomes[k-1]
 	}
 	var bodyErr error
-	if scripted != "failnoread" && req.Body != nil {
+	att.cl = req.ContentLength
+	if req.ContentLength == 0 && req.Body != nil && req.Body != http.NoBody {
+		att.cl = -1 // (as the transport takes it: a body of unknown length)
+	}
+	if r.mode == "C05" && r.down[t.idx] && req.Body != nil && (rq.id+k)%3 != 0 {
+		// a backend that is out of order fails at some point of the upload: before the first byte, or half way
+		att.partial = true
+		if (rq.id+k)%3 == 2 {
+			half := make([]byte, len(rq.body)/2)
+			io.ReadFull(req.Body, half)
+			c.Probe("backend-failed-half-way-through-the-upload")
+		}
+	} else if scripted != "failnoread" && req.Body != nil {
 		att.body, bodyErr = io.ReadAll(req.Body)
 	}
 	if req.Body != nil {
@@ -431,6 +458,11 @@ func (t *simRT) RoundTrip(req *http.Request) (resp *http.Response, err error) {
 		c.Fault("backend-error")
 		r.failLog[t.idx] = append(r.failLog[t.idx], c.Now())
 		end()
+		if att.partial && att.body == nil && (rq.id+k)%2 == 0 {
+			// (it never took the connection: the dial timed out)
+			c.Probe("backend-dial-timed-out")
+			return nil, &net.OpError{Op: "dial", Net: "tcp", Err: dialTimeout{}}
+		}
 		return nil, errBackend
 	case "panic":
 		c.Fault("transport-panic")
@@ -958,7 +990,10 @@ func (r *poolRig) judgeRequests() {
 			if r.mode == "C14" && k < len(q.outcomes) {
 				scripted = q.outcomes[k]
 			}
-			if scripted == "failnoread" {
+			if a.cl >= 0 && a.cl != int64(len(q.body)) {
+				c.Violate("C05/attempt-length-wrong", fmt.Sprintf("attempt=%d", min(k+1, 3)), "request %d attempt %d at backend %d announced Content-Length %d, the body has %d bytes (the transport refuses to send such a request)", q.id, k+1, a.host, a.cl, len(q.body))
+			}
+			if scripted == "failnoread" || a.partial {
 				continue
 			}
 			if !bytes.Equal(a.body, q.body) {
